@@ -1,6 +1,7 @@
 (* C09 — Runs stop exactly at an exit condition and the result adds up. *)
 From Coq Require Import List ZArith Bool.
-From SR Require Import Base.CaseLib Base.NumOps Model.Turn Model.Sim Model.SimProtocol Proofs.SimProofs Proofs.SimResult.
+From Coq Require Import Permutation.
+From SR Require Import Base.CaseLib Base.NumOps Model.Turn Model.Sim Model.SimProtocol Proofs.SimProofs Proofs.SimResult Proofs.SimTotals.
 Import ListNotations.
 
 (* the exit check: loss when no character is left, otherwise win when no enemy is left,
@@ -37,6 +38,118 @@ Print Assumptions C09_stops_once.
 Theorem C09_nonvacuous :
   match start demo_cfg 200 with
   | Stop s => result_ok 1 2 (trace s) (res s) (total_av s)
+  | _ => false
+  end = true.
+Proof. vm_compute. reflexivity. Qed.
+
+(* ------------------------------------------------------------------------------------------ *)
+(* Run level: for every configuration, content, decision sequence and fuel                     *)
+(* ------------------------------------------------------------------------------------------ *)
+
+(* (a) the totals are sums of hits.  The statistics subscriber runs when a hit's HitEnd is emitted,
+   before the content's HitEnd listener; the log line is written when the emission completes.  So
+   with nested hits the order of summation is not the order of the log, and binary64 addition is
+   not associative: there is a list l of (defender, total damage) pairs, a permutation of the
+   logged hits [hit_ends (trace s)] (the order of recording), such that the damage dealt is the
+   left-to-right binary64 sum from 0 of the totals of the hits in l whose defender is an enemy
+   unit of the battle, and the damage taken likewise for characters (a hit on an id that is not a
+   unit of the battle counts on neither side) *)
+Theorem C09_totals_are_sums_of_hits : forall cfg fuel s, start cfg fuel = Stop s ->
+  exists l : list (Z * PrimFloat.float),
+    Permutation l (hit_ends (trace s)) /\
+    r_dealt (res s) = fsum (map snd (filter (fun dt => is_enemy s (fst dt)) l)) /\
+    r_taken (res s) = fsum (map snd (filter (fun dt => is_char s (fst dt)) l)).
+Proof. exact C09_totals_holds. Qed.
+Print Assumptions C09_totals_are_sums_of_hits.
+
+(* (a') a configuration without a content HitEnd listener: nothing runs between the statistics and
+   the log line of a hit, so the totals are the left-to-right binary64 sums over the log itself *)
+Theorem C09_totals_in_log_order_without_hit_end_listener : forall cfg fuel s, start cfg fuel = Stop s ->
+  c_on_hit_end cfg = [] ->
+  r_dealt (res s) = fsum (map snd (filter (fun dt => is_enemy s (fst dt)) (hit_ends (trace s)))) /\
+  r_taken (res s) = fsum (map snd (filter (fun dt => is_char s (fst dt)) (hit_ends (trace s)))).
+Proof. exact C09_totals_log_order_holds. Qed.
+Print Assumptions C09_totals_in_log_order_without_hit_end_listener.
+
+(* (b) the two per-cycle cumulative series have equal length >= 1; when the cycle index of the
+   clock, max 0 (ceil(clock/100) - 1), never decreases from one turn start to the next
+   ([cycles_mono], decidable on the trace; it follows from elapsed action values >= 0, property C02)
+   both series end at the totals; when moreover every hit's total damage is >= 0 (so not NaN;
+   +infinity allowed) both series are non-decreasing in the binary64 order *)
+Theorem C09_series_end_at_totals_and_are_monotone : forall cfg fuel s, start cfg fuel = Stop s ->
+  length (r_dealt_cyc (res s)) = length (r_taken_cyc (res s)) /\
+  (1 <= length (r_dealt_cyc (res s)))%nat /\
+  (cycles_mono (trace s) = true ->
+     last (r_dealt_cyc (res s)) PrimFloat.zero = r_dealt (res s) /\
+     last (r_taken_cyc (res s)) PrimFloat.zero = r_taken (res s) /\
+     (forallb (fun dt => PrimFloat.leb PrimFloat.zero (snd dt)) (hit_ends (trace s)) = true ->
+        nondecreasing (r_dealt_cyc (res s)) = true /\ nondecreasing (r_taken_cyc (res s)) = true)).
+Proof. exact C09_series_holds. Qed.
+Print Assumptions C09_series_end_at_totals_and_are_monotone.
+
+(* (c) the total action value is the battle clock at the end: the clock of the last turn start
+   (0 before the first), carried by the final Termination event *)
+Theorem C09_total_av_is_final_clock : forall cfg fuel s, start cfg fuel = Stop s ->
+  total_av s = last_tot PrimFloat.zero (trace s) /\
+  exists r, last (trace s) VInitialize = VTermination r (total_av s).
+Proof. exact C09_clock_holds. Qed.
+Print Assumptions C09_total_av_is_final_clock.
+
+(* the run continues past an exit check exactly while both sides have living units and
+   floor(clock/100) is below the cycle limit; the result of a terminated run is, unchanged, the outcome
+   of the first exit check that failed: the state that check was made in plus the one Termination
+   event, with reason loss (1) when no character is left, else win (2) when no enemy is left, else
+   timeout (3) with the limit reached ([clock_cycle x] is floor(x / 100), [exit_fails] spells the
+   three cases out) *)
+Theorem C09_stops_at_first_failing_exit_check :
+  (forall cfg s0 s1, exit_check cfg s0 = Ok s1 ->
+     s1 = s0 /\ chars s0 <> [] /\ enemies s0 <> [] /\ (clock_cycle (total_av s0) < c_cycle_limit cfg)%Z) /\
+  (forall cfg s0 r, exit_fails cfg s0 r -> exit_check cfg s0 = Stop (emit s0 [VTermination r (total_av s0)])) /\
+  (forall cfg fuel s, start cfg fuel = Stop s ->
+     exists s0 r, exit_check cfg s0 = Stop s /\ s = emit s0 [VTermination r (total_av s0)] /\ exit_fails cfg s0 r).
+Proof. exact C09_stops_at_first_failing_check_holds. Qed.
+Print Assumptions C09_stops_at_first_failing_exit_check.
+
+(* the reason in terms of what the trace shows (the monitor [reason_ok] evaluated on real traces), for
+   configurations that describe their characters first (ids 1..nc, the harness convention): loss
+   when every character has been announced dead, otherwise win when every enemy has, otherwise
+   timeout with floor(clock/100) >= the cycle limit *)
+Theorem C09_reason_of_termination : forall cfg fuel s, start cfg fuel = Stop s -> chars_first cfg ->
+  reason_ok cfg (trace s) = true.
+Proof. exact C09_reason_holds. Qed.
+Print Assumptions C09_reason_of_termination.
+
+(* the whole C09 monitor of the correspondence check (Model/SimCheck.v: monitor_c09 = one Termination,
+   last; its reason; [result_ok]: totals = log-order sums of the hits on known units, series
+   non-decreasing, equal length, ending at the totals, total AV = clock of the Termination) accepts
+   every terminated model run, under exactly these assumptions: characters described first, no
+   content HitEnd listener, the clock's cycle index never decreases, no negative or NaN hit total *)
+Theorem C09_monitor_accepts_model_runs : forall cfg fuel s, start cfg fuel = Stop s ->
+  chars_first cfg -> c_on_hit_end cfg = [] -> cycles_mono (trace s) = true ->
+  forallb (fun dt => PrimFloat.leb PrimFloat.zero (snd dt)) (hit_ends (trace s)) = true ->
+  one_termination (trace s) && reason_ok cfg (trace s) &&
+  result_ok (Z.of_nat (length (filter d_char (c_units cfg)))) (Z.of_nat (length (c_units cfg))) (trace s) (res s) (total_av s) = true.
+Proof. exact C09_monitor_holds. Qed.
+Print Assumptions C09_monitor_accepts_model_runs.
+
+(* non-vacuity of the run-level statements: nested hits from a HitEnd listener (depth 2), damage
+   on both sides, three cycles, a monotone clock; the recorded order sums to the result's total
+   while the log order sums to a different binary64 value (the monitor's totals clause tolerates exactly that) *)
+Theorem C09_run_level_nonvacuous :
+  match start demo_cfg9 300 with
+  | Stop s =>
+      (2 <=? hit_depth 0 0 (trace s))%nat &&
+      PrimFloat.ltb PrimFloat.zero (r_dealt (res s)) && PrimFloat.ltb PrimFloat.zero (r_taken (res s)) &&
+      (3 =? length (r_dealt_cyc (res s)))%nat && cycles_mono (trace s) &&
+      forallb (fun dt => PrimFloat.leb PrimFloat.zero (snd dt)) (hit_ends (trace s)) &&
+      feqb_bits (r_dealt (res s)) (fsum (map snd (filter (fun dt => is_enemy s (fst dt)) demo_cfg9_recorded))) &&
+      feqb_bits (r_taken (res s)) (fsum (map snd (filter (fun dt => is_char s (fst dt)) demo_cfg9_recorded))) &&
+      negb (feqb_bits (r_dealt (res s)) (sum_hits (fun i => (i <=? 1)%Z) false (trace s))) &&
+      nondecreasing (r_dealt_cyc (res s)) && nondecreasing (r_taken_cyc (res s)) &&
+      feqb_bits (last (r_dealt_cyc (res s)) PrimFloat.zero) (r_dealt (res s)) &&
+      reason_ok demo_cfg9 (trace s) &&
+      (* the trace monitor accepts it: its totals clause is "equal to the log-order sum up to rounding" *)
+      result_ok 1 2 (trace s) (res s) (total_av s)
   | _ => false
   end = true.
 Proof. vm_compute. reflexivity. Qed.
